@@ -426,6 +426,8 @@ def extra_codec_streams(ctx):
                 r = py_decode(name, b)
                 if r[0] == 'ok':
                     rep.append((b, r[1]))
+        if not rep:     # nothing decodes at all (e.g. every call hangs): keep the streams going on ASCII so that this is what gets reported
+            rep = [(bytes([b]), chr(b)) for b in range(32, 127)]
         # random strings of valid units with occasional noise; every truncation of some of them
         nrand = 150 if ctx.quick() else 3000
         for _ in range(nrand):
